@@ -102,6 +102,7 @@ type Prog struct {
 	ReqOrder bool   `json:"reqorder,omitempty"`
 	MapLower bool   `json:"maplower,omitempty"`
 	Help     string `json:"help,omitempty"`
+	HelpAliases []string `json:"helpaliases,omitempty"` // aliases of the help flag (modifiers given to HelpCommand)
 	SelfName string `json:"selfname,omitempty"`
 	SelfDesc string `json:"selfdesc,omitempty"`
 	LateMode bool   `json:"latemode,omitempty"` // SetMode is called after the commands are defined
@@ -140,7 +141,7 @@ type Tree struct {
 func Resolve(p *Prog) *Tree {
 	t := &Tree{Prog: p, Nodes: map[string]*Node{}}
 	if p.Help != "" {
-		t.HelpOpt = &Opt{ID: -1, Kind: KBool, Name: p.Help}
+		t.HelpOpt = &Opt{ID: -1, Kind: KBool, Name: p.Help, Aliases: p.HelpAliases}
 	}
 	var rec func(c *Cmd, parent *Node, path string) *Node
 	rec = func(c *Cmd, parent *Node, path string) *Node {
@@ -453,7 +454,11 @@ func Build(p *Prog) *Built {
 		opt.SetMode(getoptions.Mode(p.Mode))
 	}
 	if p.Help != "" {
-		opt.HelpCommand(p.Help)
+		if len(p.HelpAliases) > 0 {
+			opt.HelpCommand(p.Help, opt.Alias(p.HelpAliases...))
+		} else {
+			opt.HelpCommand(p.Help)
+		}
 	}
 	return b
 }
